@@ -44,16 +44,34 @@ TNext == TCase
    and every one of its deviations disappears when the reference is evaluated with all named-port IP sets of the
    case emptied - i.e. the checker behaves exactly as if named ports never matched (it looks the bare port number
    up in a set whose members are "ip,proto:port").                                                             *)
+\* Tag "netset-prefix": the checker behaves exactly as if the CIDR-set (NET) members whose prefix is longer than /24 (/120)
+\* but shorter than a full address did not exist (policystore's trie stops at its per-/24 bitmap node and never looks at
+\* the children that hold /25../31 resp. /121../127 prefixes).
+AgW(c) == IF c.ipv = 4 THEN 32 ELSE 128
+RECURSIVE AgFilter(_, _, _)
+AgFilter(ms, i, w) == IF i > Len(ms) THEN <<>>
+                      ELSE (IF ms[i].n > w - 8 /\ ms[i].n < w THEN <<>> ELSE <<ms[i]>>) \o AgFilter(ms, i + 1, w)
+NoLongPrefix(c) == [id \in DOMAIN c.ipsets |-> IF c.ipsets[id].type = "net"
+                                               THEN [type |-> "net", members |-> AgFilter(c.ipsets[id].members, 1, AgW(c))]
+                                               ELSE c.ipsets[id]]
+\* Tag "ipportset-sctp": the checker behaves exactly as if the SCTP members of the service ip+port sets (dstIpPortSetIds)
+\* did not exist (its protocol-number-to-name table used to build the "ip,proto:port" key has no entry for 132).
+RECURSIVE AgNoSctp(_, _)
+AgNoSctp(ms, i) == IF i > Len(ms) THEN <<>> ELSE (IF ms[i].p = 132 THEN <<>> ELSE <<ms[i]>>) \o AgNoSctp(ms, i + 1)
+NoSvcSctp(c) == [id \in DOMAIN c.ipsets |-> IF id \in NfElems(c.svc) THEN [type |-> "ipport", members |-> AgNoSctp(c.ipsets[id].members, 1)]
+                                            ELSE c.ipsets[id]]
+ChkIsExactly(c, sets) == \A o \in Obs(c) : c.results[o[1]][o[2]].chk = WantWith(c, o[1], c.results[o[1]][o[2]].pkt, sets)
 NoNamed(c) == [id \in DOMAIN c.ipsets |-> IF id \in NfElems(c.named) THEN [type |-> "ipport", members |-> <<>>] ELSE c.ipsets[id]]
 Devs(c, impl) == { o \in Obs(c) : Got(c, impl, o[1], c.results[o[1]][o[2]]) # Want(c, o[1], c.results[o[1]][o[2]].pkt) }
 AgreeDiag(c) ==
     IF ~Loadable(c) THEN <<"CLASS", "refused", NfRefusals(c.ipt.prog, c.ipt.ksets) \cup NfRefusals(c.nft.prog, c.nft.ksets)>>
     ELSE LET bad == { impl \in Impls : Devs(c, impl) # {} }
              One(impl) == CHOOSE o \in Devs(c, impl) : TRUE
-             Tag(impl) == IF impl = "chk" /\ c.named # <<>>
-                             /\ \A o \in Devs(c, impl) : c.results[o[1]][o[2]].chk = WantWith(c, o[1], c.results[o[1]][o[2]].pkt, NoNamed(c))
-                             /\ \A q \in Obs(c) \ Devs(c, impl) : c.results[q[1]][q[2]].chk = WantWith(c, q[1], c.results[q[1]][q[2]].pkt, NoNamed(c))
-                          THEN "namedport" ELSE "-"
+             Tag(impl) == IF impl # "chk" THEN "-"
+                          ELSE IF c.named # <<>> /\ ChkIsExactly(c, NoNamed(c)) THEN "namedport"
+                          ELSE IF ChkIsExactly(c, NoLongPrefix(c)) THEN "netset-prefix"
+                          ELSE IF c.svc # <<>> /\ ChkIsExactly(c, NoSvcSctp(c)) THEN "ipportset-sctp"
+                          ELSE "-"
          IN IF bad = {} THEN <<"CLASS", "none">>
             ELSE <<"CLASS", "agree",
                    { <<impl, Want(c, One(impl)[1], c.results[One(impl)[1]][One(impl)[2]].pkt),
